@@ -555,6 +555,84 @@ def run_fuzz(chk, asan_impl, ncases):
     return accepted
 
 
+# ------------------------------------------------------------------ stream D: lzma decode window
+def run_lzma(chk, drv, ncases):
+    """xz-encoded RAW fields read through ONE handle with tiny decode buffers (hook H1) so that the
+    window is crossed constantly: forward reads, backward seeks before the look-back (rewind), seeks
+    inside the window, reads over the end.  Expected = the model's (count, start) for the same ops,
+    which by lzma_read_returns_contiguous_stream_bytes is the slice of the stream."""
+    DOUT, DIN, LB = 64, 32, 16
+    impl = vlib.build_impl("asanmem", "-DGD_VERIF_LZMA_DATA_OUT=%d -DGD_VERIF_LZMA_DATA_IN=%d -DGD_VERIF_LZMA_LOOKBACK=%d" % (DOUT, DIN, LB))
+    exe = vlib.build_harness(impl, os.path.join(vlib.VERIF, "harness/C05/xzhist.c"))
+    root = vlib.scratch("verif-c05z-")
+    rng = chk.rng
+    TY = [("UINT8", 1), ("UINT16", 2), ("INT32", 4), ("FLOAT64", 8), ("COMPLEX128", 16)]
+    jobs, mlines, meta = [], [], []
+    for ci in range(ncases):
+        tn, size = rng.choice(TY)
+        nsamp = rng.choice([0, 1, 3, 9, 40, 130, rng.randint(1, 400)])
+        partial = rng.choice([0, 0, 0, rng.randint(1, size - 1) if size > 1 else 0])
+        raw = bytes(rng.getrandbits(8) for _ in range(nsamp * size + partial))
+        d = os.path.join(root, "x%d" % ci)
+        os.makedirs(d)
+        open(d + "/format", "w").write("/ENCODING lzma\n/ENDIAN little\nx RAW %s 1\n" % tn)
+        open(d + "/x.xz", "wb").write(lzma.compress(raw))
+        ops = []
+        pos = 0
+        for _ in range(rng.randint(2, 9)):
+            k = rng.random()
+            if k < 0.4:
+                first = pos                                  # sequential
+            elif k < 0.6:
+                first = max(0, pos - rng.randint(1, 12))     # back inside / just outside the look-back
+            elif k < 0.8:
+                first = rng.randint(0, max(0, nsamp + 3))    # anywhere, also past the end
+            else:
+                first = max(0, pos - rng.randint(20, 200))   # far back: rewind
+            n = rng.choice([1, 2, 5, 17, rng.randint(1, 90)])
+            ops.append((first, n))
+            pos = min(first + n, nsamp)
+        line = " ".join("%d,%d" % o for o in ops)
+        jobs.append((d, size, line))
+        mlines.append("Z %d %d %d %d %s" % (size, len(raw), DOUT, LB, line))
+        meta.append((tn, size, raw, ops))
+
+    def one(job):
+        return vlib.sh([exe, job[0], str(job[1])], inp=(job[2] + "\n").encode(), timeout=60, env=asan_env())
+    with cf.ThreadPoolExecutor(vlib.NPROC) as ex:
+        res = list(ex.map(one, jobs))
+    rc, mo = vlib.sh([drv], inp=("\n".join(mlines) + "\n").encode(), timeout=900)
+    mo = mo.strip().split("\n")
+    dist = set()
+    for (tn, size, raw, ops), (rci, out), ml in zip(meta, res, mo):
+        rep = san_report(out)
+        case = {"type": tn, "stream_len_bytes": len(raw), "ops(first,n)": ops, "buffers": {"DATA_OUT": DOUT, "DATA_IN": DIN, "LOOKBACK": LB}}
+        if rep or rci != 0:
+            chk.violation("lzma-window/memory-safety", "reads of an xz field through one handle misbehave: " + (rep or out[-300:])[:500],
+                          dict(case, kind="impl-vs-spec", report=(rep or out)[-1500:], data_hex=raw[:2000].hex()))
+            continue
+        got = out.strip().split()
+        exp = ml.split()
+        nsamp = len(raw) // size
+        for oi, (first, n) in enumerate(ops):
+            chk.cov["evaluations"] += 1
+            dist.add((raw[:64], size, tuple(ops[:oi + 1])))
+            g = got[oi] if oi < len(got) else "?"
+            want_n = max(0, min(n, nsamp - first))
+            want = "%d:%s" % (want_n, raw[first * size:(first + want_n) * size].hex())
+            if g != want:
+                chk.violation("lzma-window/data", "xz field, op %d (first=%d n=%d): implementation returns %s, the stream holds %s" % (oi, first, n, g[:80], want[:80]),
+                              dict(case, kind="impl-vs-spec", op=oi, impl=g, spec=want, data_hex=raw[:2000].hex()))
+                break
+            m = exp[oi] if oi < len(exp) else "?"
+            if m != "%d@%d" % (want_n, min(first, nsamp) * size if want_n == 0 else first * size) and want_n > 0:
+                chk.violation("lzma-window/model", "correspondence broken: lzma window model gives %s for op %d, the stream slice is %d@%d" % (m, oi, want_n, first * size),
+                              dict(case, kind="model-vs-impl", correspondence="C05 lzma_seek/lzma_read vs gd_getdata64 on .xz", model=m), found=False)
+                break
+    chk.sample({"stream": "lzma-window", "type": meta[0][0], "bytes": len(meta[0][2]), "ops": meta[0][3]})
+    return len(dist)
+
+
 def main():
     chk = vlib.Check("C05")
     rc, tout = vlib.sh("python3 %s/translate/tr_limits.py" % vlib.VERIF)
@@ -571,7 +649,7 @@ def main():
                         "allocation failure paths are not exercised"]
     try:
         asan = vlib.build_impl("asanmem")
-        ok, log = vlib.coq_make(["Gen/Limits.vo", "C05/SieRead.vo", "C05/Recurse.vo"])
+        ok, log = vlib.coq_make(["Gen/Limits.vo", "C05/SieRead.vo", "C05/Recurse.vo", "C05/LzmaWindow.vo"])
         drv = vlib.build_ocaml_driver("C05", "C05/Extract.v", "ocaml/C05/driver.ml")
     except vlib.BuildError as e:
         chk.violation("build", "build failed: " + str(e)[:1500], {"kind": "build"}, found=False)
@@ -580,11 +658,12 @@ def main():
     d1, nmal = run_sie(chk, asan, drv, 2500 if T else 250)
     d2, nrec = run_recurse(chk, asan, drv, 1500 if T else 150)
     acc = run_fuzz(chk, asan, 6000 if T else 500)
-    chk.cov["distinct_nontrivial"] = d1 + d2
+    d4 = run_lzma(chk, drv, 1500 if T else 160)
+    chk.cov["distinct_nontrivial"] = d1 + d2 + d4
     chk.cov["rule"] = ("stream A: SIE record lists (%d malformed windows: non-monotonic/negative/huge indices, partial trailing record) x 4 windows, "
                        "fresh handle each, ASan build, compared with the extracted sie_get; stream B: closed field graphs (chains around the recursion "
                        "limit, cycles behind prefixes, DAGs with back edges; %d queries the model answers Recurse) compared with eval_top; "
-                       "stream C (validation only, not counted as distinct_nontrivial): grammar-generated dirfiles of every encoding with corrupted "
+                       "stream D: xz fields read through one handle with 64/32/16-byte decode buffers (sequential, back inside/outside the look-back, rewind, past the end) vs the slice the lzma window theorems promise; stream C (validation only, not counted as distinct_nontrivial): grammar-generated dirfiles of every encoding with corrupted "
                        "data/LINTERP files and byte-mutated format text through every read-side call under ASan+UBSan+LSan (%d of them accepted by gd_open). "
                        "distinct_nontrivial = distinct (record list, window) + distinct (graph, query)") % (nmal, nrec, acc)
     if tprob and not chk.violations:
